@@ -47,9 +47,10 @@ META = dict(
     "exception class, number of objects reverted)",
     assumptions=["SQLite with foreign_keys=ON, autocommit=False driver mode", "single session, no concurrent writer", "one fault per flush"],
     bounds=dict(
-        quick="worlds U1(3 cascades) U2 U3 U4 U5 U7 U8; histories <= 2 operations after the populated committed root (<= 1 after the other roots), final flush and commit; "
-        "every statement position x {IntegrityError, OperationalError alternating}, every hook invocation",
-        thorough="same worlds, histories <= 3 operations after the populated root with autoflush (<= 2 elsewhere), every statement position x both exception classes, every hook invocation",
+        quick="worlds U1(2 cascades) U2 U3 U5 U7 U8; histories <= 2 operations after the populated committed root (<= 1 after the other roots), final flush and commit; "
+        "every DML statement position x {IntegrityError, OperationalError alternating} + the first SELECT for flush and commit; for flush also every "
+        "invocation of the before_* hooks and session hooks and the last invocation of the after_* mapper hooks",
+        thorough="plus U1(all) U4 U5(passive_updates=False); histories <= 3 operations after the populated root with autoflush (<= 2 elsewhere), every statement position x both exception classes, every hook invocation",
     ),
 )
 
@@ -62,7 +63,10 @@ TXN_KINDS = ("add", "delete", "set", "rel", "flush")
 
 def world_keys(tier):
     SU, ALL, ORPH = c30.SU, c30.ALL, c30.ORPH
-    return [("U1", SU), ("U1", ALL), ("U1", ORPH), ("U7", ORPH), ("U3", ORPH), ("U2", ALL), ("U4", ORPH), ("U5", True, SU), ("U5", False, SU), ("U8", ALL)]
+    ks = [("U1", SU), ("U1", ORPH), ("U7", ORPH), ("U3", ORPH), ("U2", ALL), ("U5", True, SU), ("U8", ALL)]
+    if tier != "quick":
+        ks += [("U1", ALL), ("U4", ORPH), ("U5", False, SU)]
+    return ks
 
 
 NPART = 4
@@ -264,9 +268,13 @@ def check_history(rec, w, shard, h, F):
             faults.append(("stmt", k, excs[k % 2]))
     if ref["nsel"]:
         faults.append(("sel", 1, "OperationalError"))
-    for hname in ow.SESSION_HOOKS + ow.MAPPER_HOOKS:
-        for j in range(1, ref["hooks"].get(hname, 0) + 1):
-            faults.append(("hook", hname, j))
+    if F[0] == "flush":
+        # (the flush inside commit() is the same code path: statement faults only there)
+        for hname in ow.SESSION_HOOKS + ow.MAPPER_HOOKS:
+            cnt = ref["hooks"].get(hname, 0)
+            js = range(1, cnt + 1) if (hname.startswith("before") or shard["both"]) else ([cnt] if cnt else [])
+            for j in js:
+                faults.append(("hook", hname, j))
     rec.count("histories")
     rec.count("fault_positions", len(faults))
     for f in faults:
@@ -311,9 +319,14 @@ def run_fault(w, af, h, F, f, ref):
         if any(k in ("rollback",) for k, _ in probs):
             return probs
         # ---- repeat the transaction's work without the fault
+        # objects that were never persistent are not reset by a rollback (documented); an application that repeats its
+        # work builds them anew.  They were untouched when the transaction began (roots only mention what they add).
         ts = txn_start(h)
+        for n in sorted(rp.lives0):
+            if rp.lives0[n] == "T":
+                run.register(n, w.make_one(n))
         for op in h[ts:]:
-            out = ow_redo(run, op)
+            out = run.apply(op)
             if out[0] == "exc":
                 probs.append(("redo", "repeating %s raised %r" % (ow._fmt_op(op), out[1])))
                 return probs
@@ -344,22 +357,23 @@ def run_fault(w, af, h, F, f, ref):
         rp.close()
 
 
-def ow_redo(run, op):
-    import warnings
-
-    with warnings.catch_warnings():
-        warnings.simplefilter("ignore")
-        try:
-            return ow.apply_redo(run, op)
-        except Exception as e:  # noqa
-            return ("exc", e)
-
-
 def run_shard(shard, tier, rec):
     w = ow.world(shard["world"])
     root = tuple(c30.ROOTS[shard["world"][0]][shard["root"]])
     for i, (h, ms) in enumerate(enumerate_histories(w, root, shard["depth"], shard["autoflush"])):
         if i % shard.get("nparts", 1) != shard.get("part", 0):
+            continue
+        exp = ms.expect_flush(af=shard["autoflush"])
+        if any(tag for tag, _ in exp["outcomes"]) or exp.get("known_err") or exp.get("known_any"):
+            # the final flush of this history runs into a catalogued defect whose outcome depends on what happens to be
+            # loaded (f1 f3 f6 f7 f9, owned by C30 / C39): a re-run after rollback starts from other load states, so
+            # the differential oracle does not apply
+            rec.count("histories_skipped_catalogued_defect")
+            continue
+        if exp["error"] and not exp["must_error"]:
+            # outcome of the fault-free flush is open (conflicting instructions such as "put into a collection of an
+            # object that is being deleted"): it may or may not fail depending on load order, no stable reference run
+            rec.count("histories_skipped_open_outcome")
             continue
         for F in (("flush",), ("commit",)):
             check_history(rec, w, shard, h, F)
